@@ -277,6 +277,12 @@ func (fc *funcCtx) scalar(st *State, v ssa.Value) Sc {
 }
 
 func ratTerm(v constant.Value) string {
+	// float64 constants: the exact rational value of the float64 the compiler emits
+	if f, _ := constant.Float64Val(v); true {
+		if r := new(big.Rat).SetFloat64(f); r != nil {
+			v = constant.Make(r)
+		}
+	}
 	n, d := constant.Num(v), constant.Denom(v)
 	ns, ds := n.ExactString(), d.ExactString()
 	neg := strings.HasPrefix(ns, "-")
